@@ -577,6 +577,8 @@ class AckFlow(Explorer):
         if isinstance(e, ast.Name):
             return vars_.get(e.id, frozenset())
         if isinstance(e, ast.Call):
+            if f"@call{id(e)}" in vars_:
+                return vars_[f"@call{id(e)}"]          # a helper handed the message, inlined by on_stmt
             fn = ap(e.func) or ""
             if fn in ("list", "tuple", "set", "sorted", "iter", "reversed", "frozenset", "deque") and e.args:
                 return self.sources(e.args[0], st)
@@ -615,8 +617,63 @@ class AckFlow(Explorer):
             return False
         return True
 
+    def _helper_returns(self, call: ast.Call, depth: int):
+        """[(facts of the helper path in terms of the caller's message, ack forms its return value carries)] for a
+        call of a method (own class / collaborator / static) that is handed the message and returns id collections."""
+        if self.repo is None or depth > 2:
+            return None
+        h = resolve_any_call(self.repo, self.fi, call)
+        if h is None or h == self.fi:
+            return None
+        params = method_params(h)
+        hm = next((params[i] for i, a_ in enumerate(call.args) if i < len(params) and ap(a_) == self.msg), None) or \
+            next((k.arg for k in call.keywords if ap(k.value) == self.msg), None)
+        if hm is None or any(isinstance(x, (ast.Yield, ast.YieldFrom)) for x in walk(h.node)):
+            return None
+        sub = AckFlow(h, hm, tables=self.tables)
+        sub.repo, sub.depth = self.repo, depth + 1
+        res = []
+        for kind, node, hst in sub.explore(h.node.body, St(data={"vars": {}, "popped": frozenset()})):
+            if kind == "raise":
+                continue
+            if kind != "return" or node.value is None:
+                return None
+            fs = []
+            for e_, pol in hst.env.values():
+                if hm != self.msg:
+                    e_ = clone(e_, lambda n: ast.Name(id=self.msg, ctx=ast.Load())
+                               if isinstance(n, ast.Name) and n.id == hm else None)
+                fs.append((e_, pol))
+            res.append((fs, sub.sources(node.value, hst)))
+        return res or None
+
+    def _inline_helpers(self, s, st: St):
+        """Fork the path per return path of a message helper called in the statement's head expression."""
+        head = s.iter if isinstance(s, (ast.For, ast.AsyncFor)) else s.value if isinstance(s, (ast.Assign, ast.AnnAssign, ast.AugAssign)) \
+            else s.value if isinstance(s, ast.Expr) else None
+        if head is None:
+            return None
+        for c in [x for x in ast.walk(head) if isinstance(x, ast.Call)]:
+            if f"@call{id(c)}" in st.data["vars"]:
+                continue
+            rets = self._helper_returns(c, getattr(self, "depth", 0))
+            if rets is None:
+                continue
+            outs = []
+            for fs, srcs in rets:
+                s2 = st.copy()
+                if not all(assume(e_, pol, s2) for e_, pol in fs):
+                    continue
+                s2.data["vars"][f"@call{id(c)}"] = srcs
+                outs.extend(self.step(s, s2))
+            return outs
+        return None
+
     def on_stmt(self, s, st: St):
         vars_ = st.data["vars"]
+        forked = self._inline_helpers(s, st)
+        if forked is not None:
+            return forked
         if isinstance(s, ast.Assign) and len(s.targets) == 1 and isinstance(s.targets[0], ast.Name):
             vars_[s.targets[0].id] = self.sources(s.value, st)
             return None
@@ -1655,7 +1712,7 @@ def insertion_sites(repo):
 TABLE_OWNERS = {
     "Circuit.__init__": {"assign"},
     "Circuit.disconnect": {"mutcall:clear", "assign"},
-    "Circuit.send": {"setitem"},
+    "Circuit.send": {"setitem", "mutcall:pop", "delitem"},      # may take back its own registration when the send fails
     "Circuit.collect_acks": {"mutcall:pop"},
     "Circuit.resend_unacked": {"delitem", "mutcall:pop"},
 }
@@ -1744,6 +1801,12 @@ def r4(ctx):
         okt = okt or (in_for and in_while)
     ctx.ob("C05.R4", "attempt_resends drives resend_unacked for every region of the session, forever", okt, ar.where,
            "no periodic resend of unacknowledged injected packets")
+    check_register_after_send(ctx, "C05.R4")
+    check_resend_survives(ctx, "C05.R4", ar, "attempt_resends")
+    check_poll_ungated(ctx, "C05.R4", ar, "attempt_resends",
+                       "CloseCircuit / DisableSimulator mark the circuit dead while it keeps forwarding and send_reliable() "
+                       "keeps accepting packets, so reliable packets injected before or after that are neither "
+                       "retransmitted nor given up on and their completion futures never fire")
 
 
 def entry_key(repo, fi: FuncInfo, expr, depth=0) -> Optional[Tuple[str, str]]:
@@ -2068,6 +2131,134 @@ def check_resend(ctx, rule):
                "retransmitted forever")
         ctx.ob(rule, "Circuit.resend_unacked: budget exhaustion fails the send (set_exception)", len(exc) >= 1,
                ctx.w(ru, st.node), "the completion future is not failed when the budget is spent")
+
+
+EMIT_NAMES = ("_send_prepared_message", "send_datagram")
+
+
+def exc_walk(cfg: CFG, nodes, avoid=lambda n: False) -> set:
+    """CFG nodes an exception raised by one of the statement nodes can lead to: its handlers' bodies and what
+    follows them (normal edges only - that a handler may fail itself is not the point), outward through a
+    dispatch node whose handlers do not catch everything and through a finally, which runs and passes it on."""
+    seen = set()
+    stack = [(s_, False) for n in nodes for s_ in n.exc_succs]
+    while stack:
+        n, fin = stack.pop()
+        if (n, fin) in seen or avoid(n):
+            continue
+        seen.add((n, fin))
+        fin = fin or (n.label or "").startswith("finally[exc]")
+        for s_ in n.succs:
+            stack.append((s_, fin))
+        if fin or (n.kind == "handler" and n.label == "dispatch") or isinstance(n.ast, ast.Raise):
+            for s_ in n.exc_succs:
+                stack.append((s_, fin and not (s_.kind == "handler" and s_.label == "dispatch")))
+    return {n for n, _ in seen}
+
+
+def check_register_after_send(ctx, rule):
+    """A packet that could not be serialized / handed to the transport was never on the wire: no ack can ever
+    arrive for it, so it must not stay in the unacked table (every resend pass would trip over it again)."""
+    repo = ctx.repo
+    send = repo.fn("Circuit.send", BCIRC)
+    cfg = CFG(send.node)
+    emits = [c for c in calls(send.node, into_defs=False) if call_attr(c) in EMIT_NAMES]
+    for c in calls(send.node, into_defs=False):
+        if call_attr(c) in EMIT_NAMES or call_attr(c) in ("send", "send_reliable", "send_acks"):
+            continue
+        h = resolve_any_call(repo, send, c)
+        if h is not None and h != send and h.module.rel == BCIRC and \
+                any(call_attr(x) in EMIT_NAMES for x in calls(h.node, into_defs=False)):
+            emits.append(c)
+    ctx.require(bool(emits), "Circuit.send: no call that hands the prepared message to the transport found")
+    removals = [n for st in stores(send.node) if is_table(repo, st.path) and
+                (st.kind in ("delitem", "del") or (st.kind == "mutcall" and st.method in ("pop", "clear", "popitem")))
+                for n in cfg.nodes_for(st.node) or cfg_nodes(cfg, st.node)]
+    removals += [n for rh in removal_helpers(repo, send) for n in cfg_nodes(cfg, rh[0])]
+    for fn, st, via, cm in insertion_sites(repo):
+        site = via if via is not None else st.node
+        ins_nodes = cfg_nodes(cfg, site)
+        after = cfg.reachable(ins_nodes, exc=False)
+        late = [n for e in emits for n in cfg_nodes(cfg, e) if n in after and n not in ins_nodes]
+        leak = cfg.raise_exit in exc_walk(cfg, late, avoid=lambda n: n in removals) if late else False
+        ctx.ob(rule, "Circuit.send: a packet whose send failed is not left in the unacked table", not leak,
+               ctx.w(fn, st.node),
+               "the packet is registered before it is serialized and handed to the transport and nothing removes it when "
+               "that raises: a packet that was never on the wire waits for an ack forever, every resend pass fails on "
+               "it again and skips the entries behind it")
+
+
+def check_resend_survives(ctx, rule, timer: FuncInfo, label: str):
+    """An exception out of one retransmission (serializer, transport) is contained somewhere between the
+    emitting call and the timer loop, and the timer loop goes on."""
+    repo = ctx.repo
+    cr0 = repo.fn("Circuit.resend_unacked", BCIRC)
+    cr = follow_delegate(repo, cr0)
+    ru, sends, _problems, outer = resend_core(repo, cr)
+    levels = []
+    if sends and all(isinstance(e.node, ast.Yield) for e in sends):
+        levels.append((cr, find_calls(cr.node, "_send_prepared_message", into_defs=False), False))
+    else:
+        levels.append((ru, [e.node for e in sends], False))
+    if outer is not None:
+        levels.append((outer[0], [outer[1]], False))
+    if cr != cr0:
+        levels.append((cr0, list(calls(cr0.node, into_defs=False)), False))
+    levels.append((timer, find_calls(timer.node, "resend_unacked"), True))
+    contained = False
+    for f, cs, is_timer in levels:
+        if not cs:
+            continue
+        cfg = CFG(f.node)
+        nodes = [n for c in cs for n in cfg_nodes(cfg, c)]
+        if not nodes:
+            continue
+        seen = exc_walk(cfg, nodes)
+        if cfg.raise_exit in seen:
+            continue
+        if is_timer and not any(n in seen for n in nodes):
+            continue            # caught outside the polling loop: the task is over all the same
+        contained = True
+        break
+    ctx.ob(rule, f"{label}: an exception out of one retransmission does not end the resend task", contained, timer.where,
+           "a retransmission that fails to serialize or to go out raises through resend_unacked into the timer "
+           "coroutine, which has no handler: the only task driving retransmission and budget expiry ends, no packet "
+           "sent reliably afterwards is retransmitted and no completion future fails")
+
+
+def _alive_names(repo, attrs) -> set:
+    out = {"is_alive"} & set(attrs)
+    for a in attrs:
+        for f in repo.funcs.get(a, []):
+            if f.cls is not None and any(ap(d) == "property" for d in f.node.decorator_list) and \
+                    any(isinstance(n, ast.Attribute) and n.attr == "is_alive" for n in walk(f.node)):
+                out.add(a)
+    return out
+
+
+def check_poll_ungated(ctx, rule, timer: FuncInfo, label: str, why: str):
+    """The periodic resend_unacked poll does not depend on the circuit being marked alive (it may depend on the
+    table still holding something)."""
+    repo = ctx.repo
+    tn = set(table_names(repo))
+
+    def parts_of(e, depth=0):
+        out = [e]
+        if depth < 3:
+            for n in ast.walk(e):
+                if isinstance(n, ast.Name):
+                    v = single_assign(timer.node, n.id)
+                    if v is not None:
+                        out.extend(parts_of(v, depth + 1))
+        return out
+    for c in find_calls(timer.node, "resend_unacked"):
+        gated = []
+        for e, pol in facts(c, timer.node):
+            attrs = {n.attr for p_ in parts_of(e) for n in ast.walk(p_) if isinstance(n, ast.Attribute)}
+            if _alive_names(repo, attrs) and not (attrs & tn):
+                gated.append(("" if pol else "not ") + norm(e))
+        ctx.ob(rule, f"{label}: resend_unacked is polled whether or not the circuit is marked alive", not gated,
+               ctx.w(timer, c), f"the poll depends on {gated}: {why}")
 
 
 def _in_same_block(stmt, node) -> bool:
@@ -2558,7 +2749,14 @@ def r9(ctx):
     names = [x.arg for x in a.args]
     ctx.require("maxlen" in names, "InjectionTracker.__init__ has no maxlen parameter any more: read it and extend C05.R9")
     di = names.index("maxlen") - (len(names) - len(a.defaults))
-    default = ev.ev(a.defaults[di]) if 0 <= di < len(a.defaults) else None
+    dnode = a.defaults[di] if 0 <= di < len(a.defaults) else None
+    default = ev.ev(dnode) if dnode is not None else None
+    if not isinstance(default, int) and dnode is not None and tinit.cls is not None:
+        # a default spelt as a constant of the class body (evaluated in the class namespace at def time)
+        nm = dnode.id if isinstance(dnode, ast.Name) else \
+            dnode.attr if isinstance(dnode, ast.Attribute) and ap(dnode.value) == tinit.cls.name else None
+        cv = repo.class_attr(tinit.cls, nm) if nm else None
+        default = ev.ev(cv) if cv is not None else default
     ctx.require(isinstance(default, int), "InjectionTracker maxlen default is not a constant")
     pos = names.index("maxlen") - 1
     n = 0
